@@ -197,7 +197,7 @@ func drawEncCase(t *rapid.T) encCase {
 	n := gen.UniformRange(t, "nrecords", 0, 8)
 	c.Records = gen.Records(t, c.Type, n, gen.ValueOpts{Big: true})
 	c.Compression = drawCompression(t)
-	c.BlockSize = rapid.SampledFrom([]int{0, 1, 7, 16, 40, 100, 400, 1 << 20}).Draw(t, "blocksize")
+	c.BlockSize = []int{0, 1, 7, 16, 40, 100, 400, 1 << 20, 4080}[gen.Uniform(t, "blocksize", 9)]
 	for i := 0; i < n; i++ {
 		c.FlushAfter = append(c.FlushAfter, rapid.SampledFrom([]int{0, 0, 0, 0, 1, 1, 2}).Draw(t, "flush"))
 	}
